@@ -550,6 +550,62 @@ func c08LagCase(t *testing.T, out *vh.Out, rng *vh.Rand, extra int) {
 	s.endCase()
 }
 
+// c08BeginRaceCase (directed): a write transaction is being STARTED while a plain write of a key it will read is
+// applied by the FSM. BeginTx reads the applied index under b.l.RLock: holding b.l parks it there, the write is
+// applied through applyLog (what Put calls under that lock), then both go on. In the trace the write precedes `begin`
+// (BeginTx returns after it): whatever the transaction then observes, it may commit only if that is still current.
+func c08BeginRaceCase(t *testing.T, out *vh.Out, rng *vh.Rand) {
+	b, closeFn := c08NewRaft(t)
+	defer closeFn()
+	s := c08StartCase(t, out, b, rng, []string{"k", "j"}, "raft-beginrace")
+	s.put(-1, "k", []byte{1})
+	base := b.fsm.db.Stats().OpenTxN
+	b.l.Lock()
+	type br struct {
+		tx  physical.Transaction
+		err error
+	}
+	ch := make(chan br, 1)
+	go func() {
+		tx, err := b.BeginTx(s.ctx)
+		ch <- br{tx, err}
+	}()
+	for dl := time.Now().Add(400 * time.Millisecond); time.Now().Before(dl) && b.fsm.db.Stats().OpenTxN <= base; {
+		time.Sleep(5 * time.Millisecond)
+	}
+	time.Sleep(40 * time.Millisecond)
+	aerr := b.applyLog(s.ctx, &LogData{Operations: []*LogOperation{{OpType: putOp, Key: "k", Value: []byte{2}}}})
+	b.l.Unlock()
+	s.op(c08ResErr(aerr), "put", "p", "k", vh.Hex([]byte{2}))
+	var res br
+	select {
+	case res = <-ch:
+	case <-time.After(60 * time.Second):
+		s.op("timeout", "begin", "0", "rw")
+		return
+	}
+	if res.err != nil {
+		t.Fatalf("begin: %v", res.err)
+	}
+	s.txns = append(s.txns, res.tx)
+	s.ro = append(s.ro, false)
+	s.done = append(s.done, false)
+	s.op("ok", "begin", "0", "rw")
+	r := s.get(0, "k")
+	s.put(0, "j", []byte{0xee})
+	cur := c08Guard(func() string { return c08ResGet(b.Get(s.ctx, "k")) })
+	mark := ""
+	cr := c08Guard(func() string { return c08ResErr(s.txns[0].Commit(s.ctx)) })
+	if cr == "ok" && cur != r {
+		mark = "!VIOL:a transaction whose start raced with the application of a write observed k=" + r + ", k was " + cur +
+			" at commit time, and the commit succeeded#begin-race-stale-commit"
+	}
+	s.op(cr+mark, "commit", "0")
+	s.done[0] = true
+	s.dump()
+	s.endCase()
+}
+
 func TestVerifC08Raft(t *testing.T) {
 	out := vh.Open()
 	defer out.Close()
@@ -578,6 +634,9 @@ func TestVerifC08Raft(t *testing.T) {
 		closeFn()
 	} else {
 		fmt.Fprintln(os.Stderr, "a storage call hung; the backend is abandoned")
+	}
+	for i := 0; i < 3; i++ {
+		c08BeginRaceCase(t, out, rng.Fork(uint64(200000+i)))
 	}
 	if vh.EnvInt("VERIF_C08_LAG", 1) == 1 {
 		for _, extra := range []int{1, 2} {
